@@ -69,6 +69,7 @@ def main(argv):
     pid = argv[1].upper()
     tier = os.environ.get("VERIF_TIER", "quick")
     replay = None
+    digests_n = None
     i = 2
     while i < len(argv):
         if argv[i] == "--tier":
@@ -76,6 +77,9 @@ def main(argv):
             i += 2
         elif argv[i] == "--replay":
             replay = argv[i + 1]
+            i += 2
+        elif argv[i] == "--digests":
+            digests_n = int(argv[i + 1])
             i += 2
         else:
             print("unknown argument", argv[i])
@@ -93,6 +97,12 @@ def main(argv):
             print(f"VIOLATION property={pid} replay={replay}")
             return 1
         print("replay: the recorded violation did not occur")
+        return 0
+
+    if digests_n is not None:
+        # self-test helper: event-log digests of the first N runs, nothing else (no evidence file is written)
+        records, _, _ = core.run_batch(pid, tier, int(os.environ.get("VERIF_SEED", "0")), digests_n, 3600)
+        print("DIGESTS " + json.dumps([[r["i"], r.get("digest"), r.get("nviol"), r.get("harness_error")] for r in records]))
         return 0
 
     verif_seed = int(os.environ.get("VERIF_SEED", "0"))
